@@ -362,16 +362,51 @@ fn family_extreme(t: &mut Tape) -> String {
             format!("PROGRAM p\nVAR\nx : INT;\nEND_VAR\nx := {}1{};\nEND_PROGRAM\n", "(".repeat(d), ")".repeat(d))
         }
         14 => {
+            // statement nesting up to depth 12, every statement kind, in every POU kind
             let d = 1 + t.below(12);
-            let mut s = String::from("PROGRAM p\nVAR\nx : INT;\nEND_VAR\n");
+            let pou = t.below(3);
+            let mut s = String::from(match pou {
+                0 => "PROGRAM p\nVAR\nx : INT;\nEND_VAR\n",
+                1 => "FUNCTION_BLOCK p\nVAR\nx : INT;\nEND_VAR\n",
+                _ => "FUNCTION p : INT\nVAR\nx : INT;\nEND_VAR\n",
+            });
+            // one kind all the way down, or a mixture
+            let uniform = if t.flag() { Some(t.below(5)) } else { None };
+            let mut closers = vec![];
             for _ in 0..d {
-                s.push_str("IF x THEN\n");
+                let k = uniform.unwrap_or_else(|| t.below(5));
+                match k {
+                    0 => {
+                        s.push_str("IF x = 1 THEN\n");
+                        closers.push("END_IF;\n");
+                    }
+                    1 => {
+                        s.push_str("CASE x OF\n1:\n");
+                        closers.push("END_CASE;\n");
+                    }
+                    2 => {
+                        s.push_str("FOR x := 1 TO 2 DO\n");
+                        closers.push("END_FOR;\n");
+                    }
+                    3 => {
+                        s.push_str("WHILE x = 1 DO\n");
+                        closers.push("END_WHILE;\n");
+                    }
+                    _ => {
+                        s.push_str("REPEAT\n");
+                        closers.push("UNTIL x = 1 END_REPEAT;\n");
+                    }
+                }
             }
             s.push_str("x := 1;\n");
-            for _ in 0..d {
-                s.push_str("END_IF;\n");
+            for c in closers.iter().rev() {
+                s.push_str(c);
             }
-            s.push_str("END_PROGRAM\n");
+            s.push_str(match pou {
+                0 => "END_PROGRAM\n",
+                1 => "END_FUNCTION_BLOCK\n",
+                _ => "p := 1;\nEND_FUNCTION\n",
+            });
             s
         }
         _ => {
